@@ -15,7 +15,7 @@ Definition cmp_of (o : op) : option cmpop :=
 (* what the language reference says each operator does on two values of the given kinds
    (scalars, plus lists/tuples for repetition) *)
 (* does the configuration let dictionaries pass Iterable()? *)
-Definition iter_dicts (cf : cfg) : bool := match cf with CDefault => false | _ => true end.
+Definition iter_dicts (cf : cfg) : bool := match cf with CIterDicts | CLegacy => true | _ => false end.
 
 (* what can be concatenated / searched as an iterable *)
 Definition is_iter (cf : cfg) (k : kind) : bool :=
